@@ -320,7 +320,8 @@ def _dval(kind, n=3):
 
 
 AXIS_KINDS = ['list-int', 'list-str', 'arr-int', 'arr-float', 'arr-str', 'list-float', 'arr-2d', 'list-tuple', 'list-dup',
-              'list-ustr', 'arr-ustr', 'list-ragged']
+              'tuple-str', 'list-ustr', 'arr-ustr', 'list-ragged', 'tuple-int']
+UNSAFE_AXIS = ('list-ustr', 'arr-ustr', 'list-ragged', 'tuple-int')
 
 
 def _aval(kind, n, off=0):
@@ -344,6 +345,10 @@ def _aval(kind, n, off=0):
         return np.arange(2 * n).reshape(n, 2)
     if kind == 'list-tuple':
         return [(i, i + 1) for i in range(n)]
+    if kind == 'tuple-str':
+        return tuple('t%d' % (i % 2) for i in range(n))
+    if kind == 'tuple-int':
+        return tuple(range(4, 4 + n))
     if kind == 'list-ustr':
         return ['ü%d' % i for i in range(n)]
     if kind == 'arr-ustr':
@@ -358,11 +363,15 @@ def _axis_class(kind, n):
         return 'unicode-string-array'
     if kind == 'list-ragged' and n >= 2:
         return 'ragged-list-descriptor'
+    if kind == 'tuple-int':
+        return 'tuple-descriptor'
     return None
 
 
 def _case_class(case, default):
     """input_class of a case: the finding class of the first unusual descriptor kind in it, else `default`"""
+    if case.get('keys') == 'slash':
+        return 'slash-in-key'
     for k in case.get('desc', []):
         if k in FINDING_CLASS:
             return FINDING_CLASS[k]
@@ -372,6 +381,13 @@ def _case_class(case, default):
             if c:
                 return c
     return default
+
+
+KEY_PREFIX = {'plain': '', 'unicode': 'ü 日.', 'slash': 'sub/'}
+
+
+def _key(case, name):
+    return KEY_PREFIX[case.get('keys', 'plain')] + name
 
 
 def _values(shape, vals, base=0.0):
@@ -402,23 +418,23 @@ def _mk_rdms(case, base=0.0):
     n_rdm, n_cond = case['n_rdm'], case['n_cond']
     diss = _values((n_rdm, n_cond * (n_cond - 1) // 2), case.get('vals', 'plain'), base)
     measure = {'str': 'euclidean', 'none': None, 'ustr': USTR}[case.get('measure', 'str')]
-    desc = {'d_' + k: _dval(k, n_cond) for k in case.get('desc', [])}
-    rd = {'r_' + k: _aval(k, n_rdm, 1) for k in case.get('rdm_desc', [])}
-    pd = {'p_' + k: _aval(k, n_cond, 2) for k in case.get('pat_desc', [])}
+    desc = {_key(case, 'd_' + k): _dval(k, n_cond) for k in case.get('desc', [])}
+    rd = {_key(case, 'r_' + k): _aval(k, n_rdm, 1) for k in case.get('rdm_desc', [])}
+    pd = {_key(case, 'p_' + k): _aval(k, n_cond, 2) for k in case.get('pat_desc', [])}
     return RDMs(diss, dissimilarity_measure=measure, descriptors=desc, rdm_descriptors=rd, pattern_descriptors=pd)
 
 
 def _mk_dataset(case, base=0.0):
     from rsatoolbox.data import Dataset, TemporalDataset
     n_obs, n_ch = case['n_obs'], case['n_ch']
-    desc = {'d_' + k: _dval(k, n_ch) for k in case.get('desc', [])}
-    od = {'o_' + k: _aval(k, n_obs, 1) for k in case.get('obs_desc', [])}
-    cd = {'c_' + k: _aval(k, n_ch, 2) for k in case.get('ch_desc', [])}
+    desc = {_key(case, 'd_' + k): _dval(k, n_ch) for k in case.get('desc', [])}
+    od = {_key(case, 'o_' + k): _aval(k, n_obs, 1) for k in case.get('obs_desc', [])}
+    cd = {_key(case, 'c_' + k): _aval(k, n_ch, 2) for k in case.get('ch_desc', [])}
     if case['kind'] == 'temporal':
         n_t = case['n_t']
         meas = _values((n_obs, n_ch, n_t), case.get('vals', 'plain'), base)
         td = {'time': _aval('arr-float', n_t)}
-        td.update({'t_' + k: _aval(k, n_t, 3) for k in case.get('t_desc', [])})
+        td.update({_key(case, 't_' + k): _aval(k, n_t, 3) for k in case.get('t_desc', [])})
         return TemporalDataset(meas, descriptors=desc, obs_descriptors=od, channel_descriptors=cd, time_descriptors=td)
     meas = _values((n_obs, n_ch), case.get('vals', 'plain'), base)
     return Dataset(meas, descriptors=desc, obs_descriptors=od, channel_descriptors=cd)
@@ -1134,7 +1150,7 @@ def orc_dispatch(case):
 # domains
 # =====================================================================================================
 SAFE_DESC = [k for k in DESC_KINDS if k not in FINDING_CLASS]
-SAFE_AXIS = [k for k in AXIS_KINDS if k not in ('list-ustr', 'arr-ustr', 'list-ragged')]
+SAFE_AXIS = [k for k in AXIS_KINDS if k not in UNSAFE_AXIS]
 
 
 def tier_c(run, thorough):
@@ -1144,47 +1160,27 @@ def tier_c(run, thorough):
     # ---- RDMs ----------------------------------------------------------------------------------------
     bd = Bounded(run, 'C16/rdms', 'C16/RDMs.save-load_rdm/oracle/roundtrip',
                  'RDMs n_rdm in {1,2,3,12} x n_cond in {2,3,5}; values plain/NaN/inf/float32/int/-0.0; measure str/unicode/None; '
-                 'each of %d `descriptors` value kinds and %d per-RDM/per-pattern descriptor kinds singly and all together; hdf5+pkl; '
-                 '7 targets (path .h5/.hdf5/.pkl/neutral suffix, overwrite on fresh path, file handle, reopened, BytesIO)'
-                 % (len(DESC_KINDS), len(AXIS_KINDS)), function='RDMs.save')
-
-    def chk_rdms(case):
-        case = dict(case)
-        sizes = {'rdm_desc': case['n_rdm'], 'pat_desc': case['n_cond']}
-        ic = _case_class(dict(case, _axis_sizes=sizes), 'size-1' if 1 in (case['n_rdm'],) else 'generic')
-        fn = '_write_to_group' if ic not in ('generic', 'size-1') else 'RDMs.save'
-        bd.check(orc_rdms, case, ic, function=fn)
+                 'all %d harmless `descriptors` value kinds and %d per-RDM/per-pattern descriptor kinds together, ascii and unicode '
+                 'keys; hdf5+pkl; 7 targets (path .h5/.hdf5/.pkl/neutral suffix, overwrite on fresh path, file handle, reopened, '
+                 'BytesIO; all 7 only for 2 shapes in quick)' % (len(SAFE_DESC), len(SAFE_AXIS)), function='RDMs.save')
     for fmt in fmts:
-        # shapes x values x targets, all harmless descriptor kinds together
         for n_rdm, n_cond in itertools.product((1, 2, 3, 12), (2, 3, 5)):
             for vals, measure in (('plain', 'str'), ('naninf', 'none'), ('f4', 'ustr'), ('int', 'str'), ('negzero', 'str')):
                 for target in (TARGETS if (thorough or (n_rdm, n_cond) in ((1, 3), (3, 5))) else ('path', 'bytesio')):
-                    chk_rdms(dict(n_rdm=n_rdm, n_cond=n_cond, vals=vals, measure=measure, desc=SAFE_DESC, rdm_desc=SAFE_AXIS,
-                                  pat_desc=SAFE_AXIS, fmt=fmt, target=target))
-        # every descriptor kind on its own (so that a finding class is one kind)
-        for k in DESC_KINDS:
-            for target in ('path', 'bytesio'):
-                chk_rdms(dict(n_rdm=2, n_cond=3, desc=[k], rdm_desc=[], pat_desc=[], fmt=fmt, target=target))
-        for k in AXIS_KINDS:
-            for n_rdm, n_cond in ((1, 2), (2, 3), (3, 4)):
-                chk_rdms(dict(n_rdm=n_rdm, n_cond=n_cond, desc=[], rdm_desc=[k], pat_desc=[], fmt=fmt, target='path'))
-                chk_rdms(dict(n_rdm=n_rdm, n_cond=n_cond, desc=[], rdm_desc=[], pat_desc=[k], fmt=fmt, target='path'))
-        chk_rdms(dict(n_rdm=2, n_cond=3, desc=[], rdm_desc=[], pat_desc=[], measure='none', fmt=fmt, target='path'))
+                    bd.check(orc_rdms, dict(n_rdm=n_rdm, n_cond=n_cond, vals=vals, measure=measure, desc=SAFE_DESC,
+                                            rdm_desc=SAFE_AXIS, pat_desc=SAFE_AXIS, keys='unicode' if vals == 'naninf' else 'plain',
+                                            fmt=fmt, target=target), 'size-1' if n_rdm == 1 else 'generic', function='RDMs.save')
+        bd.check(orc_rdms, dict(n_rdm=2, n_cond=3, desc=[], rdm_desc=[], pat_desc=[], measure='none', fmt=fmt, target='path'),
+                 'generic', function='RDMs.save')
     bd.done()
     bds.append(bd)
 
     # ---- Dataset / TemporalDataset -------------------------------------------------------------------
     bd = Bounded(run, 'C16/dataset', 'C16/DatasetBase.save-load_dataset/oracle/roundtrip',
                  'Dataset n_obs in {1,2,6} x n_channel in {1,3}; TemporalDataset additionally n_time in {1,2,4}; values '
-                 'plain/NaN/inf/float32/int; every `descriptors` value kind (incl. noise precision matrix) and every '
-                 'obs/channel/time descriptor kind singly and together; hdf5+pkl; 7 targets', function='DatasetBase.save')
-
-    def chk_ds(case):
-        sizes = {'obs_desc': case['n_obs'], 'ch_desc': case['n_ch'], 't_desc': case.get('n_t', 0)}
-        one = 1 in (case['n_obs'], case['n_ch'], case.get('n_t', 0))
-        ic = _case_class(dict(case, _axis_sizes=sizes), 'size-1' if one else 'generic')
-        fn = '_write_to_group' if ic not in ('generic', 'size-1') else 'DatasetBase.save'
-        bd.check(orc_dataset, case, ic, function=fn)
+                 'plain/NaN/inf/float32/int; all harmless `descriptors` value kinds (incl. a noise precision matrix) and '
+                 'obs/channel/time descriptor kinds together, ascii and unicode keys; hdf5+pkl; 7 targets (all 7 only for 4 shapes '
+                 'in quick)', function='DatasetBase.save')
     for fmt in fmts:
         for kind in ('dataset', 'temporal'):
             for n_obs, n_ch in itertools.product((1, 2, 6), (1, 3)):
@@ -1195,23 +1191,54 @@ def tier_c(run, thorough):
                             continue
                         for target in (TARGETS if full else ('path', 'bytesio')):
                             c = dict(kind=kind, n_obs=n_obs, n_ch=n_ch, vals=vals, desc=SAFE_DESC, obs_desc=SAFE_AXIS,
-                                     ch_desc=SAFE_AXIS, fmt=fmt, target=target)
+                                     ch_desc=SAFE_AXIS, keys='unicode' if vals == 'naninf' else 'plain', fmt=fmt, target=target)
                             if kind == 'temporal':
                                 c.update(n_t=n_t, t_desc=SAFE_AXIS)
-                            chk_ds(c)
-            for k in DESC_KINDS:
+                            bd.check(orc_dataset, c, 'size-1' if 1 in (n_obs, n_ch, n_t) else 'generic', function='DatasetBase.save')
+    bd.done()
+    bds.append(bd)
+
+    # ---- every descriptor value type on its own (totality of the HDF5 writer) ---------------------------
+    bd = Bounded(run, 'C16/descriptor-values', 'C16/_write_to_group/oracle/descriptor-value-types',
+                 'RDMs / Dataset / TemporalDataset carrying exactly ONE descriptor: each of the %d object-level value kinds '
+                 '(numbers, NaN/inf, bool, str, unicode str, numpy scalars, int/float/str/bool/1-element/empty arrays, matrix, lists, '
+                 'nested / ragged / mixed lists, tuples, None, dict) and each of the %d per-item kinds at lengths 1..3 in every '
+                 'descriptor dict; plain, unicode and slash-containing keys; hdf5+pkl; path (+BytesIO for RDMs)'
+                 % (len(DESC_KINDS), len(AXIS_KINDS)), exhaustive=True, function='_write_to_group')
+
+    def chk_one(orc, case, sizes):
+        one = 1 in sizes.values()
+        ic = _case_class(dict(case, _axis_sizes=sizes), 'size-1' if one else 'generic')
+        bd.check(orc, case, ic, function='_write_to_group' if case['fmt'] == 'hdf5' else 'write_dict_pkl')
+    for fmt in fmts:
+        for k in DESC_KINDS:
+            for target in ('path', 'bytesio'):
+                chk_one(orc_rdms, dict(n_rdm=2, n_cond=3, desc=[k], rdm_desc=[], pat_desc=[], fmt=fmt, target=target), {})
+            for kind in ('dataset', 'temporal'):
                 c = dict(kind=kind, n_obs=2, n_ch=3, desc=[k], obs_desc=[], ch_desc=[], fmt=fmt, target='path')
                 if kind == 'temporal':
                     c.update(n_t=2, t_desc=[])
-                chk_ds(c)
-            for k in AXIS_KINDS:
-                for n in (1, 2, 3):
+                chk_one(orc_dataset, c, {})
+        for k in AXIS_KINDS:
+            for n in (1, 2, 3):
+                for where in ('rdm_desc', 'pat_desc'):
+                    c = dict(n_rdm=n, n_cond=n + 1, desc=[], rdm_desc=[], pat_desc=[], fmt=fmt, target='path')
+                    c[where] = [k]
+                    chk_one(orc_rdms, c, {'rdm_desc': n, 'pat_desc': n + 1})
+                for kind in ('dataset', 'temporal'):
                     for where in (('obs_desc', 'ch_desc', 't_desc') if kind == 'temporal' else ('obs_desc', 'ch_desc')):
                         c = dict(kind=kind, n_obs=n, n_ch=n, desc=[], obs_desc=[], ch_desc=[], fmt=fmt, target='path')
                         if kind == 'temporal':
                             c.update(n_t=n, t_desc=[])
                         c[where] = [k]
-                        chk_ds(c)
+                        chk_one(orc_dataset, c, {'obs_desc': n, 'ch_desc': n, 't_desc': n if kind == 'temporal' else 0})
+        for keys in ('unicode', 'slash'):
+            for k, ax in (('int', 'list-int'), ('str', 'list-str'), ('arr-int', 'arr-str')):
+                chk_one(orc_rdms, dict(n_rdm=2, n_cond=3, desc=[k], rdm_desc=[ax], pat_desc=[ax], keys=keys, fmt=fmt, target='path'), {})
+                chk_one(orc_dataset, dict(kind='dataset', n_obs=2, n_ch=3, desc=[k], obs_desc=[ax], ch_desc=[ax], keys=keys, fmt=fmt,
+                                          target='path'), {})
+                chk_one(orc_dataset, dict(kind='temporal', n_obs=2, n_ch=3, n_t=2, desc=[k], obs_desc=[ax], ch_desc=[ax], t_desc=[ax],
+                                          keys=keys, fmt=fmt, target='path'), {})
     bd.done()
     bds.append(bd)
 
